@@ -37,7 +37,7 @@ def main() -> int:
             ck = Checker(prog, pid, "quick")
             note = None
             try:
-                importlib.import_module(f"sv.rules.{pid}").check(ck)
+                __import__("sv.rules", fromlist=["run_rules"]).run_rules(ck, pid)
             except AnalysisError as exc:
                 if not any(not o.ok for o in ck.obs):
                     raise
